@@ -13,8 +13,14 @@ def _call(a):
         return ('err', traceback.format_exc())
 
 
-def pmap(fn, items, workers=None, chunksize=1):
-    """Ordered parallel map.  Exceptions in workers are machinery failures."""
+class Hang(RuntimeError):
+    """worker processes did not come back: a call into the code under test never returned (and was not under one of
+    the per-call watchdogs)"""
+
+
+def pmap(fn, items, workers=None, chunksize=1, timeout=None):
+    """Ordered parallel map.  Exceptions in workers are machinery failures; workers that never return are a Hang,
+    which the runner reports as a violation (the unchanged tree returns from every call)."""
     items = list(items)
     workers = min(workers or os.cpu_count() or 4, max(1, len(items)))
     if workers <= 1 or os.environ.get('ZV_SERIAL'):
@@ -22,7 +28,12 @@ def pmap(fn, items, workers=None, chunksize=1):
     else:
         ctx = multiprocessing.get_context('fork')
         with ctx.Pool(workers) as pool:
-            res = pool.map(_call, [(fn, it) for it in items], chunksize)
+            limit = timeout or float(os.environ.get('ZV_PMAP_TIMEOUT', 2700))
+            try:
+                res = pool.map_async(_call, [(fn, it) for it in items], chunksize).get(limit)
+            except multiprocessing.TimeoutError:
+                pool.terminate()
+                raise Hang('%d work items of %s did not finish within %d s' % (len(items), getattr(fn, '__name__', fn), limit))
     out = []
     for k, v in res:
         if k == 'err':
